@@ -78,6 +78,9 @@ func (c *Cluster) extraTasks(faultEndNs int64) {
 			c.Sim.GoProc(c.Sim.Harness, "apifuzz-"+n.ID, func() { c.apiFuzzer(node, faultEndNs) })
 		}
 	}
+	if cfg.Scenario == "lagging-voter" {
+		c.Sim.GoProc(c.Sim.Harness, "scenario-lagging-voter", func() { c.scenarioLaggingVoter(faultEndNs) })
+	}
 	if cfg.StickyWindow {
 		c.window = &stickyWindow{c: c}
 		c.Sim.GoProc(c.Sim.Harness, "sticky-window", func() { c.window.run(faultEndNs) })
@@ -107,6 +110,8 @@ type ConfCall struct {
 	AppendedIndex uint64
 	AppendedTerm  uint64
 	AppliedAtNs   int64 // when the target applied AppendedIndex while still leader of TermAt (0 = never seen)
+	AppliedSeq    uint64
+	ReturnSeq     uint64
 }
 
 func confErrKind(err error) string {
@@ -156,6 +161,7 @@ func (c *Cluster) membershipCall(inc *Incarnation, kind string, n *Node, voter b
 		}
 		call.Returned = true
 		call.ReturnNs = c.Sim.Now()
+		call.ReturnSeq = r.seq
 		if err := res.Error(); err != nil {
 			call.ErrKind = confErrKind(err)
 			r.ev("confreturn %d err=%s", call.ID, call.ErrKind)
@@ -763,8 +769,14 @@ func (c *Cluster) checkApiHangs() {
 		if !call.Returned || call.OK || call.AppendedIndex == 0 || call.AppliedAtNs == 0 {
 			continue
 		}
-		// The future was still pending (it failed later, at ReturnNs) when the entry was applied.
-		if call.AppliedAtNs+int64(c.Cfg.HeartbeatMs)*1_000_000 < call.ReturnNs {
+		// The future was still pending (it failed later) when the entry was applied. A timeout that
+		// fires within a heartbeat interval of the application may legitimately win the race; any
+		// other error delivered after the application is wrong.
+		late := call.AppliedAtNs+int64(c.Cfg.HeartbeatMs)*1_000_000 < call.ReturnNs
+		if call.ErrKind != "timeout" {
+			late = call.ReturnSeq > call.AppliedSeq
+		}
+		if late {
 			r.violate("C18", "membership-future", "unresolved-after-commit", "%s(%s) at %s appended configuration %d in term %d, which the node applied at %dms while still leader of that term, yet the future failed with %s at %dms (timeout %dms)",
 				call.Kind, call.Node, call.Target.Name(), call.AppendedIndex, call.AppendedTerm, call.AppliedAtNs/1_000_000, call.ErrKind, call.ReturnNs/1_000_000, call.TimeoutMs)
 		}
